@@ -132,14 +132,26 @@ def _bounded(evalfn, case):
         _wd["frame"] = None
 
 
-def _worker(prop, w, n, cases, evalfn, outpath, budget_s):
+def _take(counter, lockpath, total):
+    """next unclaimed case index (cases are handed out one by one: a static partition leaves most workers idle when the heavy cases recur with a period that
+    divides the number of workers); verdicts do not depend on who evaluates a case - every case is a pure function of (seed, id)"""
+    import fcntl
+    with open(lockpath, "a") as lf:
+        fcntl.flock(lf, fcntl.LOCK_EX)
+        i = int.from_bytes(counter[:8], "little")
+        if i < total:
+            counter[:8] = (i + 1).to_bytes(8, "little")
+        return i if i < total else None
+
+
+def _worker(prop, w, n, cases, evalfn, outpath, budget_s, counter=None, lockpath=None):
     t0 = time.time()
     kept = 0
     hung = None
     with open(outpath, "w") as out:
-        for i in range(w, len(cases), n):
+        for i in (iter(lambda: _take(counter, lockpath, len(cases)), None) if counter is not None else range(w, len(cases), n)):
             case = cases[i]
-            if hung or (budget_s and time.time() - t0 > budget_s):
+            if budget_s and time.time() - t0 > budget_s:
                 out.write(json.dumps({"i": i, "id": case["id"], "v": "skipped"}) + "\n")
                 continue
             try:
@@ -165,6 +177,8 @@ def _worker(prop, w, n, cases, evalfn, outpath, budget_s):
                 rec["sample"] = _jsonable(res.get("sample") or case)
             out.write(json.dumps(rec) + "\n")
             out.flush()
+            if hung and counter is not None:
+                break           # this worker stops taking cases (the call that does not terminate would most likely hang it again); the others carry on
     cover.flush()
     os._exit(0)
 
@@ -174,13 +188,16 @@ def run_cases(prop, cases, evalfn, budget_s=None, nworkers=None):
     n = min(nworkers or NWORKERS, max(1, len(cases)))
     sd = runner.scratch_dir("tleres")
     pids = {}
+    import mmap
+    counter = mmap.mmap(-1, 8)        # anonymous shared mapping: the next unclaimed case index, inherited by the forked workers
+    lockpath = os.path.join(sd, "lock")
     try:
         for w in range(n):
             path = os.path.join(sd, f"w{w}.jsonl")
             pid = os.fork()
             if pid == 0:
                 try:
-                    _worker(prop, w, n, cases, evalfn, path, budget_s)
+                    _worker(prop, w, n, cases, evalfn, path, budget_s, counter, lockpath)
                 finally:
                     os._exit(97)
             pids[pid] = w
